@@ -9,7 +9,7 @@
 
    Domain (in_domain): explicit track counts 0..64 per axis, at most 64 children of any kind, line indices in
    [-64, 64] including 0, spans in [1, 64] (`span 0` excluded), all four auto-flow modes. *)
-From Coq Require Import ZArith Bool List Lia.
+From Coq Require Import ZArith QArith Bool List Lia.
 From TV Require Import Model.PlacementBase Gen.PlacementGen Model.Placement
   Proofs.PlacementTables Proofs.PlacementMatrix Proofs.PlacementProofs Proofs.PlacementTotal.
 Import ListNotations.
@@ -222,3 +222,67 @@ Print Assumptions C03_distribute_loop_exit_is_stable.
 Print Assumptions C03_fr_loop_fuel_suffices.
 Print Assumptions C03_maximise_distribute_fuel_suffices.
 Print Assumptions C03_flex_loop_fuel_suffices.
+
+(* ---- non-vacuity of the premises above, on inputs where the loop needs more than one round ----
+   fr: two 1fr tracks, base sizes 100 and 0, space 120: the first round (h = 60) is invalid, the second (h = 20) exits; fuel 4.
+   maximise: limits 10 and 100, space 60: round 1 gives 10 to both, round 2 the remaining 40 to the second, round 3 exits. *)
+Definition C03_ex_fr_tracks : list (TV.Model.GridTracks.track TV.Num.QNum.XQ) :=
+  let f := TV.Num.QNum.Fin in
+  let z := f 0%Q in
+  [ TV.Model.GridTracks.mk_track TV.Model.GridTracks.KTrack false TV.Model.GridTracks.SAuto (TV.Model.GridTracks.SFr (f 1%Q)) z (f 100%Q) (f 100%Q) z z z false;
+    TV.Model.GridTracks.mk_track TV.Model.GridTracks.KTrack false TV.Model.GridTracks.SAuto (TV.Model.GridTracks.SFr (f 1%Q)) z z z z z z false ].
+Example C03_fr_loop_fuel_example :
+  Forall TV.Proofs.GridTracksProofs.track_ok2 C03_ex_fr_tracks /\
+  snd (TV.Model.GridTracks.fr_loop 1 C03_ex_fr_tracks (TV.Num.QNum.Fin 120%Q) TV.Num.Num.infinity) = false /\
+  TV.Model.GridTracks.fr_fuel C03_ex_fr_tracks = 4%nat /\
+  TV.Model.GridTracks.fr_exit C03_ex_fr_tracks (TV.Num.QNum.Fin 120%Q) = (TV.Num.QNum.Fin (120 # 2)%Q, TV.Num.QNum.Fin 20%Q, true).
+Proof.
+  split; [|vm_compute; repeat split; reflexivity].
+  repeat constructor; vm_compute; try exact I; discriminate.
+Qed.
+Definition C03_ex_max_tracks : list (TV.Model.GridTracks.track TV.Num.QNum.XQ) :=
+  let f := TV.Num.QNum.Fin in
+  let z := f 0%Q in
+  [ TV.Model.GridTracks.mk_track TV.Model.GridTracks.KTrack false (TV.Model.GridTracks.SLength z) (TV.Model.GridTracks.SLength (f 10%Q)) z z (f 10%Q) z z z false;
+    TV.Model.GridTracks.mk_track TV.Model.GridTracks.KTrack false (TV.Model.GridTracks.SLength z) (TV.Model.GridTracks.SLength (f 100%Q)) z z (f 100%Q) z z z false ].
+Example C03_maximise_distribute_fuel_example :
+  let lim := TV.Model.GridTracks.fit_content_limited_growth_limit None in
+  let loop := TV.Model.GridTracks.distribute_loop (fun _ => true) (fun _ => TV.Num.Num.one) TV.Model.GridTracks.base_size lim in
+  Forall (TV.Proofs.GridTracksProofs.tok None) C03_ex_max_tracks /\
+  (let r := loop 1%nat (TV.Num.QNum.Fin 60%Q) C03_ex_max_tracks in
+   TV.Model.GridTracks.distribute_step (fun _ => true) (fun _ => TV.Num.Num.one) TV.Model.GridTracks.base_size lim (fst r) (snd r) <> None) /\
+  map TV.Model.GridTracks.incurred (snd (loop (TV.Model.GridTracks.distribute_fuel C03_ex_max_tracks) (TV.Num.QNum.Fin 60%Q) C03_ex_max_tracks))
+  = [TV.Num.QNum.Fin 10%Q; TV.Num.QNum.Fin 50%Q].
+Proof.
+  cbv zeta. split; [|split; [vm_compute; discriminate|vm_compute; reflexivity]].
+  repeat constructor; vm_compute; try exact I; discriminate.
+Qed.
+
+(* Outside the classes the fuel statement for distribute_space_up_to_limits is FALSE of the model: with a NaN distribution proportion
+   (flex factor `fr(NaN)`; proportion = flex_factor is what distribute_item_space_to_base_size passes for a flexible batch) a round
+   accepts no increase (`NaN > 0.0` is false) and leaves space and tracks unchanged, so the exit test is never reached with ANY fuel:
+   the model returns the unchanged state after 2n+8 rounds, the Rust `while space_to_distribute > THRESHOLD` would not return.
+   Not an input the style generators or CSS produce (see notes/FUEL.md); NOT run against the implementation (it would hang the harness). *)
+Definition C03_ex_nan_track : list (TV.Model.GridTracks.track TV.Num.QNum.XQ) :=
+  let f := TV.Num.QNum.Fin in
+  let z := f 0%Q in
+  [ TV.Model.GridTracks.mk_track TV.Model.GridTracks.KTrack false TV.Model.GridTracks.SAuto (TV.Model.GridTracks.SFr TV.Num.QNum.XNaN) z z TV.Num.QNum.PInf z z z false ].
+Theorem C03_distribute_loop_fuel_suffices_refuted :
+  exists (tracks : list (TV.Model.GridTracks.track TV.Num.QNum.XQ)) (sp : TV.Num.QNum.XQ),
+    forall fuel,
+      let r := TV.Model.GridTracks.distribute_loop (fun _ => true) TV.Model.GridTracks.flex_factor TV.Model.GridTracks.base_size
+                 TV.Model.GridTracks.growth_limit fuel sp tracks in
+      TV.Model.GridTracks.distribute_step (fun _ => true) TV.Model.GridTracks.flex_factor TV.Model.GridTracks.base_size
+        TV.Model.GridTracks.growth_limit (fst r) (snd r) <> None.
+Proof.
+  exists C03_ex_nan_track, (TV.Num.QNum.Fin 10%Q). intro fuel. cbv zeta.
+  assert (Hs : TV.Model.GridTracks.distribute_step (fun _ => true) TV.Model.GridTracks.flex_factor TV.Model.GridTracks.base_size
+                 TV.Model.GridTracks.growth_limit (TV.Num.QNum.Fin 10%Q) C03_ex_nan_track = Some (TV.Num.QNum.Fin 10%Q, C03_ex_nan_track))
+    by (vm_compute; reflexivity).
+  assert (Hl : TV.Model.GridTracks.distribute_loop (fun _ => true) TV.Model.GridTracks.flex_factor TV.Model.GridTracks.base_size
+                 TV.Model.GridTracks.growth_limit fuel (TV.Num.QNum.Fin 10%Q) C03_ex_nan_track = (TV.Num.QNum.Fin 10%Q, C03_ex_nan_track)).
+  { induction fuel as [|f IH]; [reflexivity|]. cbn [TV.Model.GridTracks.distribute_loop]. rewrite Hs. exact IH. }
+  rewrite Hl. cbn [fst snd]. rewrite Hs. discriminate.
+Qed.
+
+Print Assumptions C03_distribute_loop_fuel_suffices_refuted.
